@@ -15,7 +15,7 @@ DefaultParams == [pctN |-> 3000, pctF |-> 7000, agree |-> 6500, maxc |-> 100]   
 QuickNs    == 0..12 \cup {14, 15, 16, 25, 45, 85, 100, 130}      \* 15, 45, 85: float rounding ties of 0.7 * n
 QuickDevNs == 1..10
 ThoroughNs == 0..MaxN
-ThoroughDevNs == 0..40 \cup {45, 85, 100}
+ThoroughDevNs == 0..24 \cup {45, 85, 100}
 \* the deviating vote: a byte / malleated / other-flag duplicate of a signer, a discriminated member, a stranger,
 \* an approved member over another round / step / hash / parent, an unrecoverable signature
 Devs == {"dup", "mall", "flag", "discr", "outsider", "round", "step", "hash", "parent", "forged"}
